@@ -395,7 +395,10 @@ def checkMatched (lastN : Nat) (c : ReqContent) (headers : List VH) (last : VH) 
     match headers[total - lastNCount]? with
     | none => .error (.index 72)
     | some f => if c.boundary ≤ f.ptd then return .error 400
-  -- the last-N section has to end at the parent of the last header
+  -- the last-N section is not empty when there are blocks since the start block ...
+  if lastNCount = 0 && decide (c.startNumber < last.number) then
+    return .error 400
+  -- ... and has to end at the parent of the last header
   if 0 < lastNCount && (headers.getLast?.map (fun l => decide (l.number + 1 = last.number))) ≠ some true then
     return .error 400
   if sampled = 0 then
